@@ -252,6 +252,10 @@ fn received_body(evs: &[Ev]) -> (Vec<u8>, usize, usize) {
     (data, nones, data_after_none)
 }
 
+pub fn check_direction_pub(dir: &str, sent: &Msg, head: Option<&Ev>, evs: &[Ev], rep: &mut Report, case: &serde_json::Value) {
+    check_direction(dir, sent, head, evs, rep, case)
+}
+
 /// Compare one direction of one exchange. `sent` is what the sender's API was given, `evs` the
 /// receiver's events.
 fn check_direction(
